@@ -18,7 +18,7 @@ request grammar (one line, 12 tokens):
             coo    a=M b=N data=rows i,j,v of the stored entries
             edges  a=n_nodes|none data=rows i,j
             igraph a=N data=rows i,j  weights=vertex attribute  attr=edge values
-    ops     comma list of copy ucopy saveload saveload_gml loadspatial
+    ops     comma list of copy ucopy pcopy saveload saveload_gml loadspatial
             loadspatial_gml loadgeo loadgeo_gml edgelist, the statements of a history on
             the live object  setw=a_b_k setwnone setattr=a_b_c_k delattr setadj=a_b_c save
             regraph  (arguments: formula_w / formula_v / formula_a below), or -
@@ -38,6 +38,7 @@ from fractions import Fraction
 import numpy as np
 
 ATTR = "link_weights"
+ATTR2 = "corr"      # a second link attribute (oracle only; no underscore: survives GML)
 OBS = ["N", "n_links", "link_density", "adjacency", "graph", "node_weights",
        "total_node_weight", "mean_node_weight", "link_attribute"]
 
@@ -129,6 +130,7 @@ class Case:
         self.vform = "f64"        # attribute matrices as float64 | float32 arrays
         self.zeros = False        # sparse matrix with explicitly stored zeros
         self.edtype = "int"       # dtype of an ndarray edge list
+        self.autofmt = False      # save / Load with fileformat=None (detected from the extension)
         self.__dict__.update(kw)
 
     def label(self):
@@ -216,6 +218,11 @@ def formula_a(N, directed, a, b, c):
     return [[x(i, j) for j in range(N)] for i in range(N)]
 
 
+def second_attr(V):
+    """the values of the second link attribute of a case (exact in float32, too)"""
+    return [[-x / 2 for x in row] for row in V]
+
+
 def op_args(op):
     return [int(t) for t in op.split("=")[1].split("_")]
 
@@ -261,6 +268,7 @@ class Impl:
                 g.vs["node_weight_nsi"] = [float(x) for x in c.w]
             if c.V is not None:
                 g.es[ATTR] = [float(c.V[i][j]) for i, j in c.edges]
+                g.es[ATTR2] = [float(second_attr(c.V)[i][j]) for i, j in c.edges]
             return self.Network.FromIGraph(g, silence_level=3)
         if c.ctor == "dense":
             kw["adjacency"] = c.A if c.form == "list" else np.array(c.A, dtype=adt).reshape(c.shape)
@@ -292,6 +300,7 @@ class Impl:
             net.node_weights = w          # the constructors of these classes take no weights
         if c.V is not None:
             net.set_link_attribute(ATTR, self.matrix(c, c.V))
+            net.set_link_attribute(ATTR2, self.matrix(c, second_attr(c.V)))
         return net
 
     @staticmethod
@@ -331,16 +340,20 @@ class Impl:
             return self.Network.FromIGraph(net.graph, silence_level=3)
         if op.startswith("save:"):
             fmt = op.split(":")[1]
-            self.Network.save(net, self.path(fmt), fmt)
+            self.Network.save(net, self.path(fmt), None if c.autofmt else fmt)
             return net
         if op == "ucopy":
             return net.undirected_copy()
+        if op == "pcopy":
+            return net.permuted_copy(list(range(net.N)))
         if op == "edgelist":
             return self.Network(edge_list=net.edge_list(), n_nodes=net.N,
                                 directed=net.directed, node_weights=net.node_weights,
                                 silence_level=3)
         kind, fmt = op.split(":")
         p = self.path(fmt)
+        if c.autofmt:
+            fmt = None              # non-default call: format detected from the extension
         if kind == "saveload":
             self.Network.save(net, p, fmt)
             return self.Network.Load(p, fmt, silence_level=3)
@@ -384,6 +397,11 @@ def observe(net):
         o["link_attribute"] = [[exact(x) for x in row] for row in net.link_attribute(ATTR)]
     except KeyError:
         o["link_attribute"] = None
+    try:
+        o["link_attribute2"] = [[exact(x) for x in row] for row in net.link_attribute(ATTR2)]
+    except KeyError:
+        o["link_attribute2"] = None
+    o["link_attribute_names"] = sorted(net.graph.es.attribute_names())
     # what the embedded graph object carries (written by save, read by FromIGraph / Load)
     if "node_weight_nsi" in net.graph.vs.attribute_names():
         o["gvw"] = [exact(x) for x in net.graph.vs["node_weight_nsi"]]
@@ -434,6 +452,7 @@ def expected(c):
         w = [Fraction(1)] * N
     w = list(w)
     V = c.V                       # None: the attribute does not exist
+    V2 = None if c.V is None else second_attr(c.V)      # the second attribute
     # node weights stored on the embedded graph object (None: nothing stored)
     gvw = list(c.w) if (c.ctor == "igraph" and c.w is not None) else None
     if not directed:
@@ -443,9 +462,9 @@ def expected(c):
         if kind == "ucopy":
             directed = False
             pairs |= set((j, i) for i, j in pairs)
-            V, gvw = None, None
-        elif kind == "edgelist":
-            V, gvw = None, None
+            V, V2, gvw = None, None, None
+        elif kind in ("edgelist", "pcopy"):
+            V, V2, gvw = None, None, None
         elif kind == "copy":
             gvw = None
         elif kind in ("saveload", "loadspatial", "loadgeo", "save"):
@@ -461,7 +480,7 @@ def expected(c):
         elif kind == "setadj":
             A2 = formula_a(N, directed, *op_args(op))
             pairs = set((i, j) for i in range(N) for j in range(N) if A2[i][j])
-            V, gvw = None, None
+            V, V2, gvw = None, None, None
         elif kind == "regraph":
             w = list(gvw) if gvw is not None else [Fraction(1)] * N
     A = [[1 if (i, j) in pairs else 0 for j in range(N)] for i in range(N)]
@@ -482,6 +501,13 @@ def expected(c):
         e["link_attribute"] = None
     else:       # no link: link_attribute(name) is the zero matrix for every name
         e["link_attribute"] = [[Fraction(0)] * N for _ in range(N)]
+    if V2 is not None:
+        e["link_attribute2"] = [[V2[i][j] if A[i][j] else Fraction(0) for j in range(N)]
+                                for i in range(N)]
+    elif pairs:
+        e["link_attribute2"] = None
+    else:
+        e["link_attribute2"] = [[Fraction(0)] * N for _ in range(N)]
     return e
 
 
@@ -498,7 +524,8 @@ def close(a, b):
 
 def first_difference(o, e):
     for k in ["N", "directed", "n_links", "link_density", "adjacency", "sp_A", "graph",
-              "node_weights", "total_node_weight", "mean_node_weight", "link_attribute", "gvw"]:
+              "node_weights", "total_node_weight", "mean_node_weight", "link_attribute",
+              "link_attribute2", "gvw"]:
         if k in e and not close(o[k], e[k]):
             return k
     if o["graph_n"] != o["N"] or o["graph_directed"] != o["directed"]:
@@ -523,7 +550,12 @@ def judge(ctx, c, o, ans, exc):
                       f"{ans.split(':')[1]}: {exc}", dict(rep, observed=ans))
         return
     k = first_difference(o, e)
-    if k is not None:
+    ks = [] if k is None else [k]
+    # the second attribute is judged on its own (its name survives GML, where the first
+    # difference is one of the known losses of underscored names)
+    if k != "link_attribute2" and not close(o["link_attribute2"], e["link_attribute2"]):
+        ks.append("link_attribute2")
+    for k in ks:
         sig = dict(base, kind="mismatch", observable=k, size=size)
         ctx.fail(sig, f"{c.cls} {c.label()} ops={c.ops}: {k} = {o.get(k)!r}, the specified "
                       f"graph has {e.get(k)!r}",
@@ -630,7 +662,7 @@ def history_ops(rng, first=None):
         elif r < 0.97:
             ops.append("setadj=%d_%d_%d" % (rng.randrange(0, 5), rng.randrange(0, 5), rng.randrange(0, 5)))
         else:
-            ops.append(rng.choice(["ucopy", "edgelist"]))
+            ops.append(rng.choice(["ucopy", "edgelist", "pcopy"]))
     return ops
 
 
@@ -649,7 +681,8 @@ def cases_for(rng, N, directed, edges, quick, rich):
         # how the caller's arrays are handed over: dtype of matrices, float width of
         # weights and attribute matrices (does not change the specified network)
         var = dict(adtype=rng.choice(["int", "int", "bool", "int8", "uint8", "int64", "f32", "f64"]),
-                   wform=rng.choice(["list", "f64", "f32"]), vform=rng.choice(["f64", "f64", "f32"]))
+                   wform=rng.choice(["list", "f64", "f32"]), vform=rng.choice(["f64", "f64", "f32"]),
+                   autofmt=rng.random() < 0.25)
         out.append(Case(**{**base, "edges": spec_edges, **var, **kw}))
 
     dense = dict(ctor="dense", shape=(N, N), A=A)
@@ -685,6 +718,7 @@ def cases_for(rng, N, directed, edges, quick, rich):
     add(form="list", ops=["copy"], **dense)
     add(form="list", ops=["ucopy"], **dense)
     add(form="list", ops=["edgelist"], **dense)
+    add(form="ndarray", ops=["pcopy"], **dense)
     add(ctor="edges", form="upper", edges=list(edges), n_nodes=N, ops=["copy"])
     add(ctor="igraph", form="graph", edges=list(edges), ops=["copy"])
     for fmt in fmts:
@@ -806,10 +840,7 @@ def run(ctx):
 
         reqs, answers, results = [], [], []
         for c in cases:
-            if c.cls == "geo" and c.wtype == 2 and c.w is None:
-                corr = False      # float32 squares are not the exact squares: oracle only
-            else:
-                corr = True
+            corr = True
             o, ans, exc = impl.run(c)
             results.append((c, o, ans, exc))
             nontriv = c.N >= 2 and len(c.edges) >= 1
